@@ -14,7 +14,10 @@ pub fn encoding(data: &[u8], hint: Option<String>) -> Option<&'static Encoding> 
 }
 
 pub(crate) fn decode(data: &[u8], hint: Option<String>) -> String {
-    let enc = encoding(data, hint).unwrap();
+    // if no (known) encoding can be determined, for instance because the
+    // input is empty or declares an unknown encoding label, assume UTF-8
+    // and let the parser report what is wrong with the text
+    let enc = encoding(data, hint).unwrap_or(encoding_rs::UTF_8);
     let (s, _, _) = enc.decode(data);
     s.into_owned()
 }
